@@ -284,9 +284,44 @@ def worker(shard, nshards, k):
     return res
 
 
+def positional_cases():
+    """Set operations one branch of which projects the SAME output name twice (explicitly, or through a star over a join of two
+    tables sharing a column name): branch columns correspond by POSITION, never by name. Ground truth written out by position.
+    Every body x the presentations top-level / derived table / CTE / operands swapped."""
+    bodies = {
+        "dup_explicit": ("SELECT a AS p, b AS q, a AS r FROM x", "SELECT t1.b, t2.b, t2.c FROM x AS t1 JOIN y AS t2 ON t1.b = t2.b",
+                         ["p", "q", "r"], [{"x.a", "x.b"}, {"x.b", "y.b"}, {"x.a", "y.c"}]),
+        "dup_star": ("SELECT a AS p, b AS q, a AS r, b AS s FROM x", "SELECT * FROM x AS t1 JOIN y AS t2 ON t1.b = t2.b",
+                     ["p", "q", "r", "s"], [{"x.a"}, {"x.b"}, {"x.a", "y.b"}, {"x.b", "y.c"}]),
+        "dup_same_table": ("SELECT b AS p, c AS q, c AS r FROM y", "SELECT t1.a, t1.a, t1.b FROM x AS t1", ["p", "q", "r"], [{"y.b", "x.a"}, {"y.c", "x.a"}, {"y.c", "x.b"}]),
+        "dup_three": ("SELECT a AS p, b AS q, a AS r FROM x", "SELECT t1.b, t2.b, t2.c FROM x AS t1 JOIN y AS t2 ON t1.b = t2.b UNION ALL SELECT c, c, b FROM y",
+                      ["p", "q", "r"], [{"x.a", "x.b", "y.c"}, {"x.b", "y.b", "y.c"}, {"x.a", "y.c", "y.b"}]),
+    }
+    out = []
+    for bn, (left, right, names, want) in bodies.items():
+        q = f"{left} UNION ALL {right}"
+        forms = {"top": q, "derived": f"SELECT * FROM ({q}) AS d", "cte": f"WITH c AS ({q}) SELECT * FROM c",
+                 "derived_cols": f"SELECT {', '.join('d.' + n for n in names)} FROM ({q}) AS d"}
+        for fn, sql in forms.items():
+            out.append((f"{bn}.{fn}", sql, names, want))
+    return out
+
+
 def run(ctx: Ctx) -> None:
     k = 3 if ctx.quick else 4
     res = ctx.run_shards(worker, ctx.jobs * 2, k)
+    logging.disable(logging.CRITICAL)
+    pos_n = 0
+    for tag, sql, names, want in positional_cases():
+        for name, w in zip(names, want):
+            pos_n += 1
+            try:
+                got = set(leaves(lineage(name, sql, schema=SCHEMA)))
+            except Exception as e:
+                got = {f"<{type(e).__name__}>"}
+            if got != w:
+                ctx.violation(f"C17|positional|{tag}", f"`{sql}`: lineage({name!r}) leaves {sorted(got)}, the columns at that position are {sorted(w)}",
+                              {"sql": sql, "sig": f"positional|{tag}", "column": name, "want": sorted(w)})
     viol = {}
     for sig, v in res["viol"]:
         if sig in viol:
@@ -310,6 +345,7 @@ def run(ctx: Ctx) -> None:
                     "lineage(col) leaves == compositional ground truth == lineage(None)[col]. non-trivial = relations in which a source is "
                     "reached by two paths (self join, union, shared CTE).",
             "relations": res["relations"],
+            "positional_set_operation_cases": pos_n,
             "max_wrappers": k,
             "exhaustive": True,
             "samples": res["samples"][:2],
@@ -321,6 +357,10 @@ def run(ctx: Ctx) -> None:
 
 def replay(ctx: Ctx, case: dict) -> bool:
     logging.disable(logging.CRITICAL)
+    if case.get("sig", "").startswith("positional|"):
+        got = set(leaves(lineage(case["column"], case["sql"], schema=SCHEMA)))
+        print("lineage leaves", sorted(got), "expected", case["want"])
+        return got != set(case["want"])
     found = []
     for k in (1, 2, 3):
         for r in relations(k):
